@@ -11,6 +11,10 @@ import facts as F
 import report as RPT
 
 
+MIN_INSTANCES = dict(C01=48, C02=85, C03=51, C04=43, C05=14, C06=120, C07=25, C08=20, C09=31, C10=49, C11=15, C12=75, C13=55,
+                     C14=19, C15=20, C16=37, C18=8, C19=10, C20=60)
+
+
 class Ctx:
     def __init__(self, tier, base_feature=""):
         self.tier = tier
@@ -107,6 +111,10 @@ def main(argv):
         if "uuid" not in rep.configs:
             rep.configs.append("uuid")
         ctx.cache_hits.update(ctx2.cache_hits)
+    # anti-vacuity: a rule module whose rules silently stop matching (anchor renamed, early return) must not pass with a handful
+    # of instances. Minimum = 60% of the number of passing instances counted on the repaired tree (quick tier, default config).
+    n_pass_default = len([i for i in rep.instances if i["status"] == "pass" and not i["rule"].endswith("@uuid")])
+    rep.floor(prop + ".instances", n_pass_default, MIN_INSTANCES.get(prop, 1), "passing rule instances of this check (anti-vacuity)")
     rep.context["fact_cache_hit"] = ctx.cache_hits
     if replay:
         try:
